@@ -59,9 +59,9 @@ func collector(prop string) *harn.Collector {
 		fl("withdraw:ok:paid>0", "withdraw", 0.20)
 		fl("withdraw:ok:fromQuitPeer", "withdraw:ok:paid>0", 0.05)
 		fl("withdraw:ok:fromBlackedPeer", "withdraw:ok:paid>0", 0.05)
-		fl("unAuthorizeForPeer:ok:exceedsTopUp:candidate", "unAuthorizeForPeer:ok", 0.04)
+		fl("unAuthorizeForPeer:ok:exceedsTopUp:candidate", "unAuthorizeForPeer:ok", 0.025)
 		fl("unAuthorizeForPeer:ok:exceedsTopUp:consensus", "unAuthorizeForPeer:ok", 0.04)
-		fl("withdraw:ok:afterTopUpUnauth:candidate", "withdraw:ok:paid>0", 0.03)
+		fl("withdraw:ok:afterTopUpUnauth:candidate", "withdraw:ok:paid>0", 0.02)
 		fl("withdraw:ok:afterTopUpUnauth:consensus", "withdraw:ok:paid>0", 0.03)
 		fl("addInitPos:ok", "addInitPos", 0.30)
 		fl("reduceInitPos:ok", "reduceInitPos", 0.15)
@@ -144,10 +144,10 @@ func (h *hist) validActionFor(kind, pub string) *action {
 	return h.mkMaxAuth(p, uint32(limit))
 }
 
-func TestC10_SplitMixedHistories(t *testing.T)   { runHistories(t, "C10", profMixed, 40, 60, 1800) }
-func TestC10_SplitFocusedHistories(t *testing.T) { runHistories(t, "C10", profSplit, 40, 60, 1800) }
-func TestC11_StakeMixedHistories(t *testing.T)   { runHistories(t, "C11", profMixed, 40, 60, 1800) }
-func TestC11_StakeCustodyHistories(t *testing.T) { runHistories(t, "C11", profCustody, 40, 60, 1800) }
+func TestC10_SplitMixedHistories(t *testing.T)   { runHistories(t, "C10", profMixed, 40, 100, 1800) }
+func TestC10_SplitFocusedHistories(t *testing.T) { runHistories(t, "C10", profSplit, 40, 100, 1800) }
+func TestC11_StakeMixedHistories(t *testing.T)   { runHistories(t, "C11", profMixed, 40, 100, 1800) }
+func TestC11_StakeCustodyHistories(t *testing.T) { runHistories(t, "C11", profCustody, 40, 100, 1800) }
 
 // prelude builds, through ordinary judged calls, the situation random histories of this length rarely reach: an
 // eighth node ranked below the top K (a candidate that is not a consensus node) on which an authorizer holds a
